@@ -287,8 +287,14 @@ def run_check(pid, tier, seed):
             inlined[k] = inlined.get(k, 0) + n
     trusted = list(GLOBAL_TRUSTED)
     for k in sorted(assumed):
-        c = S.CONTRACTS[k]
-        trusted.append(f"assumed contract {k} (used {assumed[k]}x): {c.note or 'library/boundary function'}")
+        c = S.CONTRACTS.get(k)
+        if c is not None:
+            trusted.append(f"assumed contract {k} (used {assumed[k]}x): {c.note or 'library/boundary function'}")
+        elif k.startswith("trusted clauses of "):
+            cc = S.CONTRACTS.get(k[len("trusted clauses of "):])
+            trusted.append(f"UNCHECKED clauses assumed from {k[19:]} (used {assumed[k]}x): " + " ;; ".join(cc.trusted_ensures if cc else []))
+        else:
+            trusted.append(f"assumed pure library function {k} (used {assumed[k]}x): result is an uninterpreted function of its arguments")
     for k in sorted(inlined):
         trusted.append(f"inlined accessor {k} (executed from the real source at {inlined[k]} call sites)")
     trusted += prop.get("trusted", [])
